@@ -7,6 +7,7 @@ OPNAME = {0: "is_bus_day", 1: "is_settlement", 2: "is_weekday", 3: "is_holiday",
           12: "lag", 13: "add_days", 14: "add_months", 15: "bus_date_range", 20: "==", 21: "construct",
           30: "is_bus_day/is_settlement over a date range", 31: "roll (5 modifiers x 2 flags) over a date range",
           32: "add_bus_days/lag/add_days over the whole i8 range",
+          40: "roll from a datetime with a time of day", 44: "predicates at a datetime with a time of day",
           41: "add_bus_days from a datetime with a time of day", 42: "lag from a datetime with a time of day",
           43: "add_days from a datetime with a time of day"}
 
@@ -50,6 +51,10 @@ def describe(enc, op, args):
         return "roll(%s, %s, settlement=%s)" % (calgen.fmt_date(a[0]), MODS[a[1]], bool(a[2]))
     if op in (11, 12):
         return "%s(%s, %d, settlement=%s)" % (OPNAME[op], calgen.fmt_date(a[0]), a[1], bool(a[2]))
+    if op == 40:
+        return "roll(%s + %ds, %s, settlement=%s)" % (calgen.fmt_date(a[0]), a[3], MODS[a[1]], bool(a[2]))
+    if op == 44:
+        return "is_bus_day/is_settlement/is_weekday/is_holiday(%s + %ds)" % (calgen.fmt_date(a[0]), a[1])
     if op in (41, 42):
         return "%s(%s + %ds, %d, settlement=%s)" % ({41: "add_bus_days", 42: "lag"}[op], calgen.fmt_date(a[0]), a[3], a[1], bool(a[2]))
     if op == 43:
